@@ -147,6 +147,15 @@ pub fn addr_sv(a: &Address) -> Sv {
     }
 }
 
+/// The address of the *other kind* (account <-> contract) that carries the same 32 bytes.
+pub fn kind_twin(env: &Env, a: &Address) -> Address {
+    let sc = match ScAddress::try_from(a).unwrap() {
+        ScAddress::Contract(xdr::Hash(h)) => ScAddress::Account(xdr::AccountId(xdr::PublicKey::PublicKeyTypeEd25519(xdr::Uint256(h)))),
+        ScAddress::Account(xdr::AccountId(xdr::PublicKey::PublicKeyTypeEd25519(xdr::Uint256(k)))) => ScAddress::Contract(xdr::Hash(k)),
+    };
+    Address::try_from_val(env, &sc).unwrap()
+}
+
 pub fn sstr(env: &Env, s: &str) -> SString {
     SString::from_str(env, s)
 }
